@@ -677,7 +677,7 @@ def main(argv):
 
 
 API_OWNER = {"C01": ["bip39"], "C02": ["bip39"], "C03": ["deriv"], "C04": ["deriv"], "C05": ["serbip"], "C06": ["paths"],
-             "C07": ["objects", "registry"], "C08": ["coins"], "C09": ["addr", "addrtext"], "C10": ["bech32", "codecs", "base58"],
+             "C07": ["objects", "registry"], "C08": ["coins"], "C09": ["addr", "addrtext", "addrbech"], "C10": ["bech32", "codecs", "base58"],
              "C11": ["codecs", "base58"], "C12": ["ecc"], "C13": ["serbip"], "C14": [], "C15": ["objects"],
              "C16": ["cardmon"], "C17": ["mnem"], "C18": ["cardmon"], "C19": ["paths"], "C20": ["serbip"]}
 
